@@ -1264,3 +1264,306 @@ pub fn run_map_case(case: &SeqCase, or: Oracles) -> Result<Stats, Fail> {
         }
     }
 }
+
+/* ------------------------------- C18: panic injection ------------------------------- */
+
+#[derive(Clone, Debug, PartialEq, Eq, serde::Serialize, serde::Deserialize)]
+pub enum FaultOp {
+    Compute(u16, Act),
+    Retain(Pred),
+    RetainForce(Pred),
+    /// consume iter (0) / keys (1) / values (2) in a loop that panics
+    IterLoop(u8),
+}
+
+pub struct Injected(pub u64);
+
+#[derive(Debug, Default, Clone)]
+pub struct FaultOutcome {
+    /// callbacks that ran before the injected one (= the fault index if the panic fired)
+    pub callbacks: usize,
+    pub fired: bool,
+    pub in_critical_section: bool,
+    pub removals_before_panic: usize,
+    pub tree_bin: bool,
+}
+
+impl MapRun {
+    /// run `fop` with a panic injected at its `at`-th callback invocation and check the aftermath
+    pub fn fault_op(&mut self, fop: &FaultOp, at: usize) -> Result<FaultOutcome, Fail> {
+        self.release_long()?;
+        self.step += 1;
+        let m = self.map();
+        let mut oc = FaultOutcome::default();
+        let n = std::cell::Cell::new(0usize);
+        let seen = std::cell::RefCell::new(Vec::<(u32, u64, u64)>::new());
+        let sh = self.shape();
+        let use_pin = matches!(self.cfg.facade, Facade::Pin);
+        let g = m.guard();
+        let r = catch_unwind(AssertUnwindSafe(|| match fop {
+            FaultOp::Compute(i, act) => {
+                let tag = self.cfg.tag(*i);
+                let k = K::probe(tag);
+                let f = |kk: &K, v: &V| -> Option<V> {
+                    seen.borrow_mut().push((kk.tag, v.id, v.payload));
+                    if n.get() == at {
+                        std::panic::panic_any(Injected(777));
+                    }
+                    n.set(n.get() + 1);
+                    match act {
+                        Act::Inc => Some(V::new(v.payload + 1)),
+                        Act::Set => Some(V::new(5)),
+                        Act::Remove => None,
+                    }
+                };
+                if use_pin {
+                    m.pin().compute_if_present(&k, f).map(|v| (v.id, v.payload))
+                } else {
+                    m.compute_if_present(&k, f, &g).map(|v| (v.id, v.payload))
+                }
+            }
+            FaultOp::Retain(p) | FaultOp::RetainForce(p) => {
+                let f = |kk: &K, v: &V| -> bool {
+                    seen.borrow_mut().push((kk.tag, v.id, v.payload));
+                    if n.get() == at {
+                        std::panic::panic_any(Injected(777));
+                    }
+                    n.set(n.get() + 1);
+                    p.keep(kk.tag, v.payload)
+                };
+                match (use_pin, matches!(fop, FaultOp::RetainForce(_))) {
+                    (true, false) => m.pin().retain(f),
+                    (true, true) => m.pin().retain_force(f),
+                    (false, false) => m.retain(f, &g),
+                    (false, true) => m.retain_force(f, &g),
+                }
+                None
+            }
+            FaultOp::IterLoop(kind) => {
+                let mut body = |tag: u32, id: u64, p: u64| {
+                    seen.borrow_mut().push((tag, id, p));
+                    if n.get() == at {
+                        std::panic::panic_any(Injected(777));
+                    }
+                    n.set(n.get() + 1);
+                };
+                match kind {
+                    0 => {
+                        for (k, v) in m.iter(&g) {
+                            body(k.tag, v.id, v.payload)
+                        }
+                    }
+                    1 => {
+                        for k in m.keys(&g) {
+                            body(k.tag, 0, 0)
+                        }
+                    }
+                    _ => {
+                        for v in m.values(&g) {
+                            body(0, v.id, v.payload)
+                        }
+                    }
+                }
+                None
+            }
+        }));
+        drop(g);
+        let seen = seen.into_inner();
+        oc.callbacks = n.get();
+        match &r {
+            Err(e) => {
+                match e.downcast_ref::<Injected>() {
+                    Some(Injected(777)) => oc.fired = true,
+                    _ => fail!("C18", self, "{:?} with a panic injected at callback {}: a different panic came out: {}", fop, at, panic_msg_ref(e)),
+                }
+                if seen.len() != at + 1 {
+                    fail!("C18", self, "{:?}: the injected panic propagated but {} callbacks were recorded for fault index {}", fop, seen.len(), at);
+                }
+            }
+            Ok(_) => {
+                if seen.len() > at {
+                    fail!("C18", self, "{:?}: the panic injected at callback {} did not propagate to the caller", fop, at);
+                }
+            }
+        }
+        // model: the callbacks completed before the panic took effect, the faulting one did not
+        match fop {
+            FaultOp::Compute(i, act) => {
+                let tag = self.cfg.tag(*i);
+                oc.in_critical_section = oc.fired;
+                if let Some(e) = self.model.get(&tag).copied() {
+                    if seen.first().map(|s| (s.0, s.1)) != Some((tag, e.vid)) {
+                        fail!("C18", self, "compute_if_present({}) showed its closure {:?}, the model holds value {}", tag, seen.first(), e.vid);
+                    }
+                    if !oc.fired {
+                        match (act, &r) {
+                            (Act::Remove, _) => {
+                                self.model.remove(&tag);
+                            }
+                            (_, Ok(Some((id, p)))) => {
+                                let me = self.model.get_mut(&tag).unwrap();
+                                me.vid = *id;
+                                me.payload = *p;
+                            }
+                            _ => fail!("C18", self, "compute_if_present({}) on a present key returned nothing", tag),
+                        }
+                    }
+                } else if !seen.is_empty() {
+                    fail!("C18", self, "compute_if_present({}) invoked its closure although the key is absent", tag);
+                }
+                let b = (self.cfg.hmode.hash_tag(tag) & (sh.table_len.max(1) as u64 - 1)) as usize;
+                oc.tree_bin = sh.bins.get(&b).map_or(false, |x| x.0);
+            }
+            FaultOp::Retain(p) | FaultOp::RetainForce(p) => {
+                let done = if oc.fired { at } else { seen.len() };
+                for (tag, vid, payload) in seen.iter().take(done) {
+                    match self.model.get(tag) {
+                        Some(e) if e.vid == *vid => {}
+                        other => fail!("C18", self, "retain showed ({}, value {}) to its predicate, the model holds {:?}", tag, vid, other),
+                    }
+                    if !p.keep(*tag, *payload) {
+                        self.model.remove(tag);
+                        oc.removals_before_panic += 1;
+                    }
+                }
+                oc.tree_bin = sh.tree_bins > 0;
+            }
+            FaultOp::IterLoop(_) => {}
+        }
+        // aftermath: structure consistent, nothing locked, contents = model
+        let d = unsafe { m.verif_dump() };
+        if let Err(e) = inspect::check_quiescent(&d, self.cfg.hmode) {
+            fail!("C18", self, "after the panic in {:?} (callback {}): {}", fop, at, e);
+        }
+        match inspect::contents(&d, |v: &V| v.id) {
+            Ok(c) => {
+                let got: Vec<(u32, u64)> = c.iter().map(|(t, e)| (*t, e.1)).collect();
+                let want: Vec<(u32, u64)> = self.model.iter().map(|(t, e)| (*t, e.vid)).collect();
+                if got != want {
+                    fail!("C18", self, "after the panic in {:?} (callback {}) the map holds {:?}, expected {:?} (callbacks completed before the panic applied, the faulting entry unchanged)", fop, at, got, want);
+                }
+            }
+            Err(e) => fail!("C18", self, "{}", e),
+        }
+        // later writes to the affected bin(s) complete, from this and from another thread
+        let probe_tags: Vec<u32> = match fop {
+            FaultOp::Compute(i, _) => vec![self.cfg.tag(*i)],
+            _ => seen.iter().rev().take(2).map(|s| s.0).filter(|t| *t != 0 || self.cfg.tag(0) == 0).collect(),
+        };
+        for tag in probe_tags {
+            let p1 = self.fresh_payload();
+            let (k, v) = (K::new(tag), V::new(p1));
+            let (origin, vid) = (k.origin, v.id);
+            let mm: &'static FMap = m;
+            let h = std::thread::spawn(move || {
+                let g = mm.guard();
+                mm.insert(k, v, &g).map(|v| v.id)
+            });
+            let got = match h.join() {
+                Ok(g) => g,
+                Err(_) => fail!("C18", self, "an insert from another thread into the bin of key {} panicked after the injected panic", tag),
+            };
+            let want = self.model.get(&tag).map(|e| e.vid);
+            if got != want {
+                fail!("C18", self, "after the panic, insert({}) from another thread returned {:?}, expected {:?}", tag, got, want);
+            }
+            match self.model.get_mut(&tag) {
+                Some(e) => {
+                    e.vid = vid;
+                    e.payload = p1;
+                }
+                None => {
+                    self.model.insert(tag, M { origin, vid, payload: p1 });
+                }
+            }
+            let mut full = self.or;
+            full.returns = true;
+            let saved = self.or;
+            self.or = full;
+            let r = self.op_remove(tag, false);
+            self.or = saved;
+            r?;
+        }
+        let sh2 = self.shape();
+        let saved = self.or;
+        self.or.returns = true;
+        self.or.quiescent = true;
+        let r = self.post_check(&sh2);
+        self.or = saved;
+        r?;
+        Ok(oc)
+    }
+}
+
+fn panic_msg_ref(e: &Box<dyn std::any::Any + Send>) -> String {
+    if let Some(s) = e.downcast_ref::<&str>() {
+        s.to_string()
+    } else if let Some(s) = e.downcast_ref::<String>() {
+        s.clone()
+    } else {
+        "non-string panic payload".into()
+    }
+}
+
+#[derive(Clone, Debug, serde::Serialize, serde::Deserialize)]
+pub struct FaultCase {
+    pub cfg: Cfg,
+    pub prefix: Vec<Op>,
+    pub fault: FaultOp,
+    pub tail: Vec<Op>,
+    /// Some(i): only this fault index (replay files); None: every index
+    pub only: Option<usize>,
+}
+
+#[derive(Debug, Default, Clone)]
+pub struct FaultStats {
+    pub runs: u64,
+    pub fired: u64,
+    pub in_critical_section: u64,
+    pub after_removals: u64,
+    pub tree: u64,
+}
+
+/// all fault indices of one case; Err carries the failing index
+pub fn run_fault_case(c: &FaultCase) -> Result<FaultStats, (usize, Fail)> {
+    let or = Oracles { returns: true, ..Default::default() };
+    let mut st = FaultStats::default();
+    let mut at = c.only.unwrap_or(0);
+    loop {
+        ledger_reset();
+        let mut r = MapRun::new(c.cfg.clone(), or);
+        let res = (|| -> Result<FaultOutcome, Fail> {
+            r.run(&c.prefix)?;
+            let oc = r.fault_op(&c.fault, at)?;
+            r.run(&c.tail)?;
+            Ok(oc)
+        })();
+        let oc = match res {
+            Ok(oc) => {
+                if let Err(f) = r.finish() {
+                    return Err((at, f));
+                }
+                oc
+            }
+            Err(f) => {
+                let _ = catch_unwind(AssertUnwindSafe(move || drop(r)));
+                return Err((at, f));
+            }
+        };
+        st.runs += 1;
+        if oc.fired {
+            st.fired += 1;
+            st.in_critical_section += oc.in_critical_section as u64;
+            st.after_removals += (oc.removals_before_panic > 0) as u64;
+            st.tree += oc.tree_bin as u64;
+        }
+        if !oc.fired || c.only.is_some() {
+            // index `at` is beyond the last callback of the fault-free run: every index was covered
+            return Ok(st);
+        }
+        at += 1;
+        if at > 5000 {
+            return Ok(st);
+        }
+    }
+}
